@@ -3,6 +3,7 @@ package main
 // Calls: contracts, inlining, builtins, lock primitives; static write-set analysis for loop havoc.
 
 import (
+	"strconv"
 	"fmt"
 	"go/token"
 	"go/types"
@@ -58,6 +59,11 @@ func (fr *Frame) callWith(st *State, c *ssa.CallCommon, args []Val, fnv Val, pos
 		}
 		all := append([]Val{recv}, args...)
 		if fc := vc.prog.cs.Funcs[key]; fc != nil {
+			// a contract on the interface method itself (an assumed model).  When the dynamic type is statically evident
+			// and the concrete method has a contract of its own (verified against its body), that one is used instead.
+			if res, ok := fr.dispatchEvident(st, c, recv, args, pos); ok {
+				return res
+			}
 			return fr.applyContract(st, fc, key, nil, sig, all, pos)
 		}
 		// no contract for the interface method: dispatch by case analysis over the repository types that implement
@@ -138,6 +144,30 @@ func funcFieldCall(v ssa.Value) (string, *ssa.FieldAddr, bool) {
 		return "", nil, false
 	}
 	return structKey(S) + "." + sst.Field(fa.Field).Name(), fa, true
+}
+
+// dispatchEvident: the receiver's type component is a literal type id of a repository pointer type whose concrete
+// method has a contract -> apply that contract.
+func (fr *Frame) dispatchEvident(st *State, c *ssa.CallCommon, recv Val, args []Val, pos token.Pos) ([]Val, bool) {
+	vc := fr.vc
+	if fr.top().lockOnly || len(recv.C) < 2 {
+		return nil, false
+	}
+	if _, err := strconv.Atoi(recv.C[0]); err != nil {
+		return nil, false
+	}
+	for _, im := range vc.prog.implementations(c.Value.Type(), c.Method.Name()) {
+		if recv.C[0] != vc.typeID(im.pt) {
+			continue
+		}
+		ckey := funcKey(im.fn)
+		fc := vc.prog.cs.Funcs[ckey]
+		if fc != nil && !fc.Inline && fc.applicable(fr.top().view) {
+			all := append([]Val{{T: im.pt, C: []string{recv.C[1]}}}, args...)
+			return fr.applyContract(st, fc, ckey, im.fn, im.fn.Signature, all, pos), true
+		}
+	}
+	return nil, false
 }
 
 func pkgPathOf(f *ssa.Function) string {
@@ -348,6 +378,38 @@ func (fr *Frame) applyContract(st *State, fc *FuncContract, key string, callee *
 	pvars := map[string]Val{}
 	for k, v := range vars {
 		pvars[k] = v
+	}
+	// an interface-typed result whose contract fixes its dynamic type by a top-level conjunct `istype(result, "T")`
+	// carries that type id literally (the same fact the ensures clause states), so that later interface-method calls
+	// on it are resolved statically
+	for _, c := range clausesFor(fc.Ensures, view) {
+		for _, part := range splitConj(c.E) {
+			call, ok := part.(*ECall)
+			if !ok || len(call.Args) != 2 {
+				continue
+			}
+			id, ok := call.Fn.(*EIdent)
+			if !ok || id.Name != "istype" {
+				continue
+			}
+			rn, ok1 := call.Args[0].(*EIdent)
+			ts, ok2 := call.Args[1].(*EStr)
+			if !ok1 || !ok2 {
+				continue
+			}
+			tt := vc.prog.typeByString(ts.Val, pkg)
+			if tt == nil {
+				continue
+			}
+			for i := range results {
+				if _, isIface := results[i].T.Underlying().(*types.Interface); !isIface || len(results[i].C) < 2 {
+					continue
+				}
+				if (rn.Name == "result" && len(results) == 1) || rn.Name == fmt.Sprintf("result%d", i) || (i < len(rnames) && rnames[i] != "" && rnames[i] == rn.Name) {
+					results[i].C[0] = vc.typeID(tt)
+				}
+			}
+		}
 	}
 	bindResults(pvars, rnames, results)
 	penv := &Env{vc: vc, st: st, old: pre, vars: pvars, pkg: pkg, pkgName: fc.Pkg}
@@ -736,10 +798,28 @@ func (fr *Frame) intrinsic(st *State, callee *ssa.Function, key string, args []V
 			}
 			return []Val{{T: types.Typ[types.Bool], C: []string{t}}}, true
 		}
+	case "vpackeq":
+		if len(args) == 2 && len(args[0].C) == 2 && len(args[1].C) == 2 {
+			// two pack interface values: both nil, or same dynamic type and content-equal objects (packeq)
+			a, b := args[0], args[1]
+			t := "(and (= " + a.C[0] + " " + b.C[0] + ") (= " + a.C[1] + " " + b.C[1] + "))"
+			if sf := vc.prog.specFnIn("packeq", "pack"); sf != nil {
+				pe := vc.declareSpecFn(sf)
+				t = "(or " + t + " (and (= " + a.C[0] + " " + b.C[0] + ") (not (= " + a.C[0] + " 0)) (" + pe + " " + a.C[1] + " " + b.C[1] + ")))"
+			}
+			return []Val{{T: types.Typ[types.Bool], C: []string{t}}}, true
+		}
 	case "vstreameq":
 		if len(args) == 2 {
 			// the comparison is discharged position by position (quantifier-free obligations); the call itself yields true
 			fr.streamEqObligations(st, args[0], args[1], pos)
+			return []Val{{T: types.Typ[types.Bool], C: []string{"true"}}}, true
+		}
+	case "vstreameqall":
+		if len(args) == 2 {
+			// quantified variant of vstreameq for streams whose token count is not static (loops): same count and,
+			// at every position, same kind and same payload of that kind
+			fr.streamEqAllObligations(st, args[0], args[1], pos)
 			return []Val{{T: types.Typ[types.Bool], C: []string{"true"}}}, true
 		}
 	case "vsliceeq":
@@ -963,7 +1043,34 @@ func (fr *Frame) loopWrites(li *loopInfo) *writeSet {
 			fr.instrWrites(w, ins, map[*ssa.Function]bool{fr.fn: true}, 0)
 		}
 	}
+	// ghost fields assigned by `loop K set` clauses of this loop and of the loops nested in it
+	for hb, lj := range fr.loops {
+		if li.body[hb] && lj.spec != nil {
+			fr.ghostSetKeys(w, lj.spec.Sets)
+		}
+	}
 	return w
+}
+
+// ghostSetKeys adds the heap keys of the ghost fields (or ghost globals) named as targets of ghost updates. The struct
+// type of a target x.g is not resolved here: every ghost field called g counts (over-approximation of the havoc set).
+func (fr *Frame) ghostSetKeys(w *writeSet, sets []*GhostUpd) {
+	for _, gu := range sets {
+		switch x := gu.Target.(type) {
+		case *ESel:
+			for _, g := range fr.vc.prog.cs.Ghosts {
+				if g.Struct != "" && g.Name == x.Name {
+					w.keys["F:"+g.Struct+"."+g.Name] = true
+				}
+			}
+		case *EIdent:
+			for _, g := range fr.vc.prog.cs.Ghosts {
+				if g.Struct == "" && g.Name == x.Name {
+					w.keys["G:ghost."+g.Pkg+"."+g.Name] = true
+				}
+			}
+		}
+	}
 }
 
 func (fr *Frame) addStructKeys(w *writeSet, S types.Type) {
@@ -1128,9 +1235,38 @@ func (fr *Frame) callWrites(w *writeSet, c *ssa.CallCommon, seen map[*ssa.Functi
 		}
 	}
 	useContract := fc != nil && !fc.Inline && fc.applicable(fr.top().view)
-	if c.IsInvoke() && fc == nil && depth <= curDepthLimit {
-		// dispatched by case analysis when executed: the writes of every implementation
+	if c.IsInvoke() && depth <= curDepthLimit {
+		// the call may be resolved on the dynamic type when executed (dispatchInvoke: no interface contract; dispatchEvident:
+		// evident type whose concrete method has a contract): the write set covers every implementation - the modifies
+		// clause of its contract (ghost state included) or, without an applicable contract, the writes of its body
 		for _, im := range vc.prog.implementations(c.Value.Type(), c.Method.Name()) {
+			if ifc := vc.prog.cs.Funcs[funcKey(im.fn)]; ifc != nil && !ifc.Inline && ifc.applicable(fr.top().view) && !fr.top().lockOnly {
+				if ifc.ModAll {
+					w.all = true
+					continue
+				}
+				iptypes := map[string]types.Type{}
+				ipn, _ := fr.contractNames(ifc, im.fn, im.fn.Signature)
+				iargs := []types.Type{im.pt}
+				for _, a := range c.Args {
+					iargs = append(iargs, a.Type())
+				}
+				for i, n := range ipn {
+					if i < len(iargs) {
+						iptypes[n] = iargs[i]
+					}
+				}
+				ipkg := vc.prog.typesPkgByName(ifc.Pkg)
+				for _, m := range ifc.modifiesFor(ifc.selectView(fr.top().view)) {
+					if !fr.staticModKeys(w, m, iptypes, ipkg) {
+						w.all = true
+					}
+				}
+				continue
+			}
+			if fc != nil {
+				continue // the interface contract is used for this implementation
+			}
 			if seen[im.fn] {
 				continue
 			}
@@ -1189,6 +1325,12 @@ func (fr *Frame) callWrites(w *writeSet, c *ssa.CallCommon, seen map[*ssa.Functi
 			return
 		}
 		seen[callee] = true
+		if cfc := vc.prog.cs.Funcs[funcKey(callee)]; cfc != nil {
+			// an inlined callee executes the ghost updates of its loops
+			for _, ls := range cfc.Loops {
+				fr.ghostSetKeys(w, ls.Sets)
+			}
+		}
 		for _, b := range callee.Blocks {
 			for _, ins := range b.Instrs {
 				sub := newWriteSet()
@@ -1473,6 +1615,46 @@ func (fr *Frame) streamEqObligations(st *State, a, b Val, pos token.Pos) {
 	}
 }
 
+// streamEqAllObligations: token streams of two DataOutputX objects are equal, stated with quantifiers over the
+// positions (for streams written by loops). The payload compared at a position is the one its kind defines:
+// integer payload for kinds 1..9, 20..25 (array length) and >= 50 (record composites: abstract record value), string/bytes content for kinds 10..14, dynamic type and
+// content-equivalent object for the composite kinds 40 (value, valeq) and 41 (pack, packeq).
+func (fr *Frame) streamEqAllObligations(st *State, a, b Val, pos token.Pos) {
+	vc := fr.vc
+	top := fr.top()
+	S := a.T.Underlying().(*types.Pointer).Elem()
+	isrt := vc.idxSort()
+	get := func(v Val, name, sort string) string {
+		h := vc.hget(st, fieldKey(S, name), "(Array Int "+sort+")")
+		return "(select " + h + " " + v.C[0] + ")"
+	}
+	iarr := "(Array " + isrt + " " + isrt + ")"
+	sarr := "(Array " + isrt + " Str)"
+	n1, n2 := get(a, "tn", isrt), get(b, "tn", isrt)
+	ka, kb := "(select "+get(a, "tk", iarr)+" k)", "(select "+get(b, "tk", iarr)+" k)"
+	ia, ib := "(select "+get(a, "ti", iarr)+" k)", "(select "+get(b, "ti", iarr)+" k)"
+	sa, sb := "(select "+get(a, "ts", sarr)+" k)", "(select "+get(b, "ts", sarr)+" k)"
+	ra, rb := "(select "+get(a, "tr", iarr)+" k)", "(select "+get(b, "tr", iarr)+" k)"
+	rng := "(and " + vc.ile(vc.idx(0), "k") + " " + vc.ilt("k", n1) + ")"
+	all := func(body string) string { return "(forall ((k " + isrt + ")) (=> " + rng + " " + body + "))" }
+	vc.oblige("assert", top.oblFn, fr.oblName("stream-eqall-len"), fr.curCond, "(= "+n1+" "+n2+")", fr.pos(pos), "re-encoded stream has the same number of tokens")
+	vc.oblige("assert", top.oblFn, fr.oblName("stream-eqall-kind"), fr.curCond, all("(= "+ka+" "+kb+")"), fr.pos(pos), "re-encoded stream has the same token kind at every position")
+	isInt := "(or (and (<= 1 " + ka + ") (<= " + ka + " 9)) (and (<= 20 " + ka + ") (<= " + ka + " 25)) (= " + ka + " 40) (= " + ka + " 41) (<= 50 " + ka + "))"
+	vc.oblige("assert", top.oblFn, fr.oblName("stream-eqall-int"), fr.curCond, all("(=> "+isInt+" (= "+ia+" "+ib+"))"), fr.pos(pos), "re-encoded stream has the same integer payload at every position of an integer/array/composite kind")
+	isStr := "(and (<= 10 " + ka + ") (<= " + ka + " 14))"
+	vc.oblige("assert", top.oblFn, fr.oblName("stream-eqall-str"), fr.curCond, all("(=> "+isStr+" (or (= "+sa+" "+sb+") "+vc.strEqExt(sa, sb)+"))"), fr.pos(pos), "re-encoded stream has the same text/bytes payload at every position of a text/bytes kind")
+	var comp []string
+	if sf := vc.prog.specFnIn("valeq", "value"); sf != nil {
+		comp = append(comp, "(=> (= "+ka+" "+vc.idx(40)+") (or (= "+ra+" "+rb+") ("+vc.declareSpecFn(sf)+" "+ra+" "+rb+")))")
+	}
+	if sf := vc.prog.specFnIn("packeq", "pack"); sf != nil {
+		comp = append(comp, "(=> (= "+ka+" "+vc.idx(41)+") (or (= "+ra+" "+rb+") ("+vc.declareSpecFn(sf)+" "+ra+" "+rb+")))")
+	}
+	if len(comp) > 0 {
+		vc.oblige("assert", top.oblFn, fr.oblName("stream-eqall-obj"), fr.curCond, all(andAll(comp...)), fr.pos(pos), "re-encoded stream has a content-equal object at every position of a composite kind")
+	}
+}
+
 // sameFieldsObligations: one obligation per field (recursively through embedded structs by value).
 func (fr *Frame) sameFieldsObligations(st *State, S types.Type, a, b string, prefix string, pos token.Pos) {
 	vc := fr.vc
@@ -1580,6 +1762,15 @@ func (fr *Frame) dispatchInvoke(st *State, c *ssa.CallCommon, recv Val, args []V
 	impls := vc.prog.implementations(c.Value.Type(), c.Method.Name())
 	if len(impls) == 0 || len(impls) > 24 || fr.depth >= curDepthLimit {
 		return nil, false
+	}
+	// dynamic type statically evident (the type component of the receiver is a literal type id, e.g. the value was made
+	// from a concrete pointer in this unit, or a contract said `istype(result, "*T")`): an ordinary static call
+	if _, err := strconv.Atoi(recv.C[0]); err == nil {
+		for _, im := range impls {
+			if recv.C[0] == vc.typeID(im.pt) {
+				return fr.staticCall(st, im.fn, append([]Val{{T: im.pt, C: []string{recv.C[1]}}}, args...), nil, pos), true
+			}
+		}
 	}
 	vc.assumptions["interface call "+key+" dispatched by case analysis over the implementing repository types (pointer receivers)"] = true
 	base := st.Clone()
